@@ -47,7 +47,7 @@ def shards(tier):
 
 
 def bounds(tier):
-    return {'preemption_bound_completed': 2 if tier == 'quick' else 3, 'scripts': scripts(tier),
+    return {'preemption_bound_completed': 2 if tier == 'quick' else '3 (2 for scripts with a help request)', 'scripts': scripts(tier),
             'scenarios': ['fresh session', 'session resumed inside a Markov level (status request can see the placeholder item)'],
             'ruleset': 'D1(2 groups) / M (2 levels of 3 strings) / D2: 5 pre-terminals, 10 guesses'}
 
@@ -121,7 +121,8 @@ def run_shard(shard, tier, acc):
     if scen == 'subprocess':
         return run_subprocess(acc)
     script = scripts(tier)[si]
-    bound = 2 if tier == 'quick' else 3
+    # the help text alone is ~80 stderr writes (= scheduling points): scripts containing 'h' stay at bound 2 in the thorough tier
+    bound = 3 if (tier == 'thorough' and 'h' not in script) else 2
     spec = the_spec()
     td = tree.scratch_tree()
     R.write_ruleset(os.path.join(td, 'Rules', 'v'), spec)
